@@ -449,6 +449,7 @@ def load_known_findings(prop: str) -> dict[str, dict[str, Any]]:
 # ---------------------------------------------------------------------------
 
 _ENGINE: Engine | None = None
+_KNOWN_SIGS: frozenset[str] = frozenset()
 RUN_WALL_BACKSTOP_S = 900
 _MAX_VIOL_PER_CHUNK = 10
 _STOP_AFTER_VIOLATIONS = 60
@@ -467,6 +468,7 @@ class ChunkResult:
     violations: list[tuple[int, dict[str, list[list[int]]], Violation]] = field(
         default_factory=list
     )
+    known: list[tuple[int, dict[str, list[list[int]]], Violation]] = field(default_factory=list)
     harness_error: str | None = None
 
 
@@ -497,6 +499,14 @@ def _run_chunk(args: tuple[str, int, int, int, int, int]) -> ChunkResult:
                 )
             vs = ([res.violation] if res.violation else []) + res.extra_violations
             for v in vs:
+                sig = v.signature or f"{v.oracle}:{v.call}"
+                if sig in _KNOWN_SIGS:
+                    # a listed known finding: counted, a few kept for the KNOWN-FINDING
+                    # line, never a reason to cut the chunk or the batch short
+                    out.stats["known_finding_hits." + sig] += 1
+                    if out.stats["known_finding_hits." + sig] <= 2:
+                        out.known.append((i, rec, v))
+                    continue
                 if len(out.violations) < _MAX_VIOL_PER_CHUNK:
                     out.violations.append((i, rec, v))
                 out.stats["violations_raw"] += 1
@@ -540,8 +550,9 @@ def run_batch(
     n_samples: int,
     chunk: int | None = None,
 ) -> BatchResult:
-    global _ENGINE
+    global _ENGINE, _KNOWN_SIGS
     _ENGINE = eng
+    _KNOWN_SIGS = frozenset(load_known_findings(eng.prop))
     if chunk is None:
         chunk = max(1, min(2000, n_runs // (workers * 8) or 1))
     tasks = [
@@ -776,6 +787,9 @@ def check(prop: str, tier: str) -> int:
     br.violations.sort(key=lambda t: t[0])
     seen_sig: dict[str, int] = {}
     known_hits: Counter[str] = Counter()
+    for k, n in br.stats.items():
+        if k.startswith("known_finding_hits."):
+            known_hits[k[len("known_finding_hits.") :]] += n
     reported: list[dict[str, Any]] = []
     for run, rec, v in br.violations:
         sig = v.signature or f"{v.oracle}:{v.call}"
